@@ -239,11 +239,46 @@ class WebProcessorSession(BaseProcessorSession):
         return True
 
     @asyncio.coroutine
+    def _process_robots_subsequent(self, request: Request) -> bool:
+        '''Consult robots.txt for a request that follows the first one.
+
+        Coroutine.
+        '''
+        try:
+            can_fetch = yield from self._fetch_rule.consult_robots_txt(request)
+        except REMOTE_ERRORS as error:
+            _logger.error(
+                _('Fetching robots.txt for ‘{url}’ '
+                  'encountered an error: {error}'),
+                url=request.url_info.url, error=error
+            )
+            self._result_rule.handle_error(self._item_session, error)
+
+            wait_time = self._result_rule.get_wait_time(
+                self._item_session, error=error
+            )
+
+            if wait_time:
+                _logger.debug('Sleeping {0}.', wait_time)
+                yield from asyncio.sleep(wait_time)
+
+            return False
+
+        if not can_fetch:
+            _logger.debug('Robots filter verdict {} for redirect.', can_fetch)
+            self._item_session.skip()
+            return False
+
+        return True
+
+    @asyncio.coroutine
     def _process_loop(self):
         '''Fetch URL including redirects.
 
         Coroutine.
         '''
+        is_first_request = True
+
         while not self._web_client_session.done():
             self._item_session.request = self._web_client_session.next_request()
 
@@ -254,6 +289,17 @@ class WebProcessorSession(BaseProcessorSession):
             if not verdict:
                 self._item_session.skip()
                 break
+
+            if not is_first_request:
+                # The first request was checked in _process_robots().
+                # A redirect may lead to a disallowed path or another origin.
+                ok = yield from self._process_robots_subsequent(
+                    cast(Request, self._item_session.request))
+
+                if not ok:
+                    break
+
+            is_first_request = False
 
             exit_early, wait_time = yield from self._fetch_one(cast(Request, self._item_session.request))
 
